@@ -292,8 +292,8 @@ func dischargeSet(e *enc, dir string, idx int, timeoutMs int, obls []*Obl, retry
 	var retry []*Obl
 	for i, o := range pending {
 		o.Result, o.Solver, o.Ms = res[i], cfgs[0].Name, per
-		if res[i] != "unsat" && res[i] != "sat" && retryOthers {
-			retry = append(retry, o)
+		if res[i] != "unsat" && res[i] != "sat" && retryOthers && !knownObl[o.ID] {
+			retry = append(retry, o) // (a recorded finding is not expected to discharge: no second round for it)
 		}
 	}
 	var rwg sync.WaitGroup
@@ -407,3 +407,6 @@ func fetchModel(e *enc, o *Obl, dir string, timeoutMs int) string {
 }
 
 var keepSMT = false
+
+// knownObl: obligations listed in known_findings.json for the property being checked
+var knownObl = map[string]bool{}
